@@ -69,7 +69,7 @@ type Built struct {
 
 type BuildOpt struct {
 	Router     rm.Router
-	Filter     bool // install a logging container filter
+	Filter     bool  // install a logging container filter
 	SvcOrder   []int // permutation of services (nil = identity)
 	RouteOrder [][]int
 	Options    bool // install the container's OPTIONSFilter
@@ -181,12 +181,12 @@ func identity(n int) []int {
 
 // Outcome is the observable result of one dispatch.
 type Outcome struct {
-	Panic   string       `json:"panic,omitempty"`
-	Status  int          `json:"status"`
-	Invoked []Invocation `json:"invoked,omitempty"`
-	Allow   []string     `json:"allow,omitempty"`
-	HasAllow bool        `json:"has_allow,omitempty"`
-	Location string      `json:"location,omitempty"`
+	Panic    string       `json:"panic,omitempty"`
+	Status   int          `json:"status"`
+	Invoked  []Invocation `json:"invoked,omitempty"`
+	Allow    []string     `json:"allow,omitempty"`
+	HasAllow bool         `json:"has_allow,omitempty"`
+	Location string       `json:"location,omitempty"`
 }
 
 // Key is a canonical comparable rendering (status, route, params, Allow set).
